@@ -776,6 +776,12 @@ func c04Exec(c *engine.Ctx, cs c04Case) {
 		defer setLimits(saved)
 		b, _ := hex.DecodeString(cs.Hex)
 		c04Many(c, cs, b, "valid encoding")
+	case "deeptrunc":
+		saved := wkbcommon.MaxGeometryElements
+		setLimits(cs.Limits)
+		defer setLimits(saved)
+		b, _ := hex.DecodeString(cs.Hex)
+		c04DeepTrunc(c, cs, b)
 	case "depth":
 		c04Depth(c, cs)
 	case "product":
@@ -815,6 +821,33 @@ func c04Many(c *engine.Ctx, cs c04Case, enc []byte, what string) {
 		return
 	}
 	c.Count("many_part_within_bound", 1)
+}
+
+// c04DeepTrunc: an encoding of nested collections that ends before the innermost member: an error,
+// and an allocation that stays additive in the input length.
+func c04DeepTrunc(c *engine.Ctx, cs c04Case, enc []byte) {
+	c.Count("evaluations", 1)
+	bound := allocBound(len(enc), cs.Limits)
+	best := uint64(math.MaxUint64)
+	var derr error
+	for try := 0; try < 4 && best > bound; try++ {
+		runtime.GC()
+		b0 := heapAllocs()
+		if p, _ := engine.Guard(func() { _, derr = c04Decode(enc, cs) }); p != nil {
+			derr = fmt.Errorf("panic: %v", p)
+		}
+		if d := heapAllocs() - b0; d < best {
+			best = d
+		}
+	}
+	cc := cs
+	cc.Hex = hex.EncodeToString(enc)
+	depth := len(enc) / 9
+	if derr == nil {
+		c.Violate(fmt.Sprintf("deep-truncated/%s/accepted", c04Name(cs)), fmt.Sprintf("%d nested collections without an innermost member decoded without error", depth), "c04", cc)
+	} else if best > bound {
+		c.Violate(fmt.Sprintf("deep-truncated/%s/allocation", c04Name(cs)), fmt.Sprintf("decoding %d nested collections cut off before the innermost member (%d bytes, error %.80s) allocated %d bytes, bound %d", depth, len(enc), derr.Error(), best, bound), "c04", cc)
+	}
 }
 
 // c04SweepOne: totality, well-formedness and canonical re-encode of one arbitrary string.
@@ -906,6 +939,29 @@ func c04Run(c *engine.Ctx) {
 					cs := c04Case{Mode: "many", Ext: f.Ext, Limits: cfg}
 					c.Count("many_part_encodings", 1)
 					c04Many(c, cs, enc, fmt.Sprintf("%s with %d parts", g.Kind, n))
+				}
+			}
+		}
+	}
+
+	// deep and TRUNCATED: 100, 1000, 3000 collections, one inside the other (each announcing one
+	// member), cut off where the innermost member would start. The error travels up through every
+	// level; what the decode allocates must stay additive in the input length there too.
+	for _, cfg := range [][4]int{{0, -1, -1, -1}, {0, 1 << 15, 1 << 15, 1 << 15}} {
+		setLimits(cfg)
+		for _, depth := range []int{100, 1000, 3000} {
+			for _, f := range []c04Case{{}, {Ext: true}} {
+				for _, xdr := range []bool{false, true} {
+					var enc []byte
+					for k := 0; k < depth; k++ {
+						if xdr {
+							enc = append(enc, 0, 0, 0, 0, 7, 0, 0, 0, 1)
+						} else {
+							enc = append(enc, 1, 7, 0, 0, 0, 1, 0, 0, 0)
+						}
+					}
+					c.Count("deep_truncated_encodings", 1)
+					c04DeepTrunc(c, c04Case{Mode: "deeptrunc", Ext: f.Ext, Limits: cfg}, enc)
 				}
 			}
 		}
